@@ -16,7 +16,9 @@ EXPLANATION = (
     "(opslimit as u32, (memlimit/1024) as u32) and its results are the (t, m) operands; lanes operand is 1. "
     "H0: the initial hash absorbs lanes, outlen, m, t, version, type, |pwd|, pwd, |salt|, salt in that "
     "dominance order, all little-endian. AUTH: PwHash::verify returns Ok only through a ct_eq between the "
-    "stored hash and one recomputed from (password, stored salt, stored config).")
+    "stored hash and one recomputed from (password, stored salt, stored config). ROLE: at every crate-internal call "
+    "edge, what the caller names a salt (parameter, named local or record field) is not passed where the callee "
+    "expects the password, and vice versa.")
 NOT_DECIDED = ("equality of the Argon2 output with RFC 9106 / libsodium for every parameter set (memory filling, "
                "addressing, variable-length hash H' are value-level).")
 
@@ -37,6 +39,10 @@ def run(ctx, rep):
             limits(rep, prog, f, b)
     context_guards(rep, prog)
     convert(rep, prog)
+    # password and salt are both byte strings: what the caller names a salt never goes where the callee expects the
+    # password, and vice versa (Argon2 hashes them at different positions of H0, so a swap changes every output)
+    n_pw = cm.role_consistency(rep, prog, role_of_name=cm.pw_role_of_name, kind="input")
+    rep.floor("password/salt call edges", n_pw, 10)
     h0(rep, prog)
     addressing(rep, prog)
     verify(rep, prog)
